@@ -152,9 +152,25 @@ def anchor(run, p):
     run.floor('C13-ANCHOR', n, 3)
 
 
+def _is_rex_attr(e):
+    return isinstance(e, ast.Attribute) and e.attr == 'rex'
+
+
 def _elements_from(val, producers):
+    """The stored list's elements are fresh results of a producer, or existing elements of a .rex list (a selection,
+    slice or copy of it keeps them anchored)."""
+    if isinstance(val, ast.Subscript) and _is_rex_attr(val.value):
+        return True                                          # self.rex[:n]
+    if isinstance(val, ast.Call) and getattr(val.func, 'id', '') in ('list', 'sorted') and val.args and _is_rex_attr(val.args[0]):
+        return True
     if isinstance(val, ast.ListComp):
-        val = val.elt
+        elt = val.elt
+        if isinstance(elt, ast.Subscript) and _is_rex_attr(elt.value):
+            return True                                      # [self.rex[i] for i in kept]
+        if isinstance(elt, ast.Name) and any(isinstance(g.target, ast.Name) and g.target.id == elt.id and _is_rex_attr(g.iter)
+                                             for g in val.generators):
+            return True                                      # [r for r in self.rex if ...]
+        val = elt
     return isinstance(val, ast.Call) and isinstance(val.func, ast.Attribute) and val.func.attr in producers
 
 
